@@ -146,6 +146,11 @@ func MuxScenarios(thorough bool) []MuxScenario {
 		// insertion order survives removals from the front and the middle of four streams (PCR on the second)
 		MuxScenario{Name: "remove-order-p40", Period: 40, Setup: []MOp{opAddA, opAddB, opAddAuto, opAddAuto, opPcrB},
 			Alpha: []MOp{opRmA, opAddA, {K: "rm", PID: 0x102}, {K: "add", PID: 0x102, ST: 0x0f}, {K: "rm", PID: 0x103}, opTables, opDataB1}, Depth: 5, Dedup: true},
+		// the PMT grows and shrinks across the one-packet limit in steps of a few bytes: 32 plain streams leave
+		// 7 bytes; a stream with an empty descriptor fills them exactly, one with a 3-byte descriptor is one byte
+		// too many, others overshoot by 3 and 4; a refused emission must not consume a version or a counter value
+		MuxScenario{Name: "pmt-size-boundary-p2", Period: 2, Setup: []MOp{opAddA, opPcrA, {K: "addmany", N: 31}, opTables},
+			Alpha: []MOp{opAddD, {K: "add", PID: 0x104, ST: stMeta, Desc: "sid"}, opAddC, opAddB, {K: "rm", PID: 0x103}, {K: "rm", PID: 0x104}, {K: "rm", PID: 0x102}, opRmB, opTables, opDataA1}, Depth: 4, Dedup: true},
 		MuxScenario{Name: "fix-add-remove", Period: 40, Setup: setupA, Alpha: []MOp{opAddB, opRmB, opTables}, Depth: -1, Dedup: true},
 		MuxScenario{Name: "fix-readd-p1", Period: 1, Setup: setupA, Alpha: []MOp{opRmA, opAddA, opDataA1}, Depth: fixDepth, Dedup: true},
 		MuxScenario{Name: "readd-two-pids-p40", Period: 40, Setup: setupAB, Alpha: []MOp{opRmA, opAddA, opDataA1, opDataB1, opRmB, opAddB}, Depth: readdDepth, Dedup: true},
